@@ -178,37 +178,72 @@ func c09ArgByType(w *World, r *Report) {
 	f := w.Func("parse", "getArgByType")
 	fd, p := w.FuncDecl(f)
 	names, _ := nodeTypeNames(w)
-	sws := switchesOn(fd.Body, func(e ast.Expr) bool { return objOfIdent(p, e) == paramObj(p, fd, 0) })
-	if len(sws) != 1 {
+	_ = p
+	// the dispatch as a decision table: for every node type, which exit is taken and what it returns
+	got := map[string]string{}
+	sf := w.SSAFunc(f)
+	if sf == nil || len(ssaLoops(sf)) > 0 {
 		panic(undecided{"getArgByType: switch on the node type"})
 	}
-	got := map[string]string{}
-	for _, a := range switchArms(p, sws[0]) {
-		if a.Default {
-			continue
-		}
-		// argument types constructed in this arm
-		tset := map[string]bool{}
-		ast.Inspect(a.Clause, func(n ast.Node) bool {
-			if cl, ok := n.(*ast.CompositeLit); ok {
-				if t := p.TypesInfo.TypeOf(cl); t != nil {
-					if nt, ok := t.(*types.Named); ok && nt.Obj().Pkg() == p.Types && strings.HasSuffix(nt.Obj().Name(), "Arg") {
-						tset[nt.Obj().Name()] = true
-						return false
-					}
+	sym := NewSym(w)
+	rows := sym.retTable(sf, 0)
+	argTypeOf := func(v ssa.Value) string {
+		set := map[string]bool{}
+		seen := map[ssa.Value]bool{}
+		var walk func(v ssa.Value)
+		walk = func(v ssa.Value) {
+			if v == nil || seen[v] {
+				return
+			}
+			seen[v] = true
+			switch x := v.(type) {
+			case *ssa.Phi:
+				for _, e := range x.Edges {
+					walk(e)
+				}
+				return
+			case *ssa.MakeInterface:
+				walk(x.X)
+				return
+			case *ssa.ChangeInterface:
+				walk(x.X)
+				return
+			}
+			t := v.Type()
+			if pt, ok := t.(*types.Pointer); ok {
+				t = pt.Elem()
+			}
+			if nt, ok := t.(*types.Named); ok && strings.HasSuffix(nt.Obj().Name(), "Arg") {
+				if _, isIface := nt.Underlying().(*types.Interface); !isIface {
+					set[nt.Obj().Name()] = true
 				}
 			}
-			return true
-		})
+		}
+		walk(v)
 		var ts []string
-		for t := range tset {
+		for t := range set {
 			ts = append(ts, t)
 		}
 		sort.Strings(ts)
-		for _, c := range a.Consts {
-			v, _ := intConst(c)
-			got[names[v]] = strings.Join(ts, "|")
+		return strings.Join(ts, "|")
+	}
+	for v, name := range names {
+		for _, row := range rows {
+			hit, ok := pcEvalFree(row.cond, func(a *pcAtom) (bool, bool) {
+				if bo, ok := a.v.(*ssa.BinOp); ok && a.subj != "" && (readsParam(bo.X, sf.Params[0]) || readsParam(bo.Y, sf.Params[0])) {
+					return a.set.contains(v), true
+				}
+				return false, false
+			})
+			if ok && hit {
+				if t := argTypeOf(row.val); t != "" {
+					got[name] = t
+				}
+			}
 		}
+	}
+	if len(got) == 0 {
+		panic(undecided{"getArgByType: switch on the node type"})
 	}
 	var kws []string
 	for k := range rfcArgClass {
